@@ -12,6 +12,7 @@ import (
 	"math/bits"
 	"reflect"
 	"sort"
+	"strings"
 
 	"harness/engc"
 	"harness/sim"
@@ -147,7 +148,7 @@ var opNames = []string{"Set", "SetNx", "SetX", "Remove", "Get", "GetNode", "Len"
 
 func gen(r *sim.Rng, tier string) *sim.Case {
 	c := &sim.Case{Params: map[string]int{}}
-	kind := r.N(8)
+	kind := r.N(9)
 	c.Params["kind"] = kind
 	start := r.Pick(4, 2, 3)
 	if kind >= 3 && start == 2 {
@@ -574,6 +575,28 @@ func cmpEnum[K any](ad *adapter[K], md *model, name string, idx int, ks []K, vs 
 	return nil
 }
 
+// byteKeys: every string of length 0..3 over nine bytes spread over the whole byte range, in
+// ascending string order (index 0 is "", the zero value of the key type).
+var byteKeys, byteKeyIdx = func() ([]string, map[string]int) {
+	alpha := []byte{0x00, '0', 'A', 'a', 0x7f, 0x80, 0xc3, 0xe4, 0xff}
+	ks := []string{""}
+	for _, a := range alpha {
+		ks = append(ks, string([]byte{a}))
+		for _, b := range alpha {
+			ks = append(ks, string([]byte{a, b}))
+			for _, c := range alpha {
+				ks = append(ks, string([]byte{a, b, c}))
+			}
+		}
+	}
+	sort.Strings(ks)
+	idx := map[string]int{}
+	for i, k := range ks {
+		idx[k] = i
+	}
+	return ks, idx
+}()
+
 func exec(c *sim.Case, out *sim.WorkerOut) (*sim.Violation, bool) {
 	domain = c.P("domain")
 	if domain < 16 {
@@ -601,6 +624,26 @@ func exec(c *sim.Case, out *sim.WorkerOut) (*sim.Violation, bool) {
 		}, func(k string) int { var i int; fmt.Sscanf(k, "k%04d", &i); return i }), out, dg)
 	case 2:
 		v, nt = execTyped(c, ordinary(start, func(i int) uint16 { return uint16(i * 32) }, func(k uint16) int { return int(k) / 32 }), out, dg)
+	case 8:
+		// strings over the whole byte range (NUL, ASCII, DEL, UTF-8 lead and continuation bytes,
+		// 0xff), some prefixes of others: index order is Go's string order
+		if domain > len(byteKeys) {
+			domain = len(byteKeys)
+		}
+		v, nt = execTyped(c, ordinary(start, func(i int) string {
+			if i < 0 {
+				return ""
+			}
+			if i >= len(byteKeys) {
+				return byteKeys[len(byteKeys)-1] + strings.Repeat("\xff", i-len(byteKeys)+1)
+			}
+			return byteKeys[i]
+		}, func(k string) int {
+			if i, ok := byteKeyIdx[k]; ok {
+				return i
+			}
+			return len(byteKeys) + len(k) // beyond the table (bounds only)
+		}), out, dg)
 	case 7:
 		// floating-point keys: negative, fractional, and index 2 is 0.0 (the zero value of the key type)
 		v, nt = execTyped(c, ordinary(start, func(i int) float64 { return float64(i-2) * 0.25 }, func(k float64) int { return int(k*4) + 2 }), out, dg)
